@@ -456,7 +456,70 @@ class Combine:
     model = None
 
 
+# ---- the same operations reached through TreeNeuron METHODS (these carry their own copy / cache-clearing code)
+@op('m_reroot')
+class MReroot(Reroot):
+    @staticmethod
+    def apply(x, p, inplace):
+        return x.reroot(p['r'], inplace=inplace)
+
+
+@op('m_prune_distal_to')
+class MPruneDistal(CutProximal):
+    """x.prune_distal_to(n) keeps the proximal part (cut_skeleton ret='proximal')"""
+    @classmethod
+    def apply(cls, x, p, inplace):
+        return x.prune_distal_to(p['c'], inplace=inplace)
+
+
+@op('m_prune_proximal_to')
+class MPruneProximal(CutDistal):
+    """x.prune_proximal_to(n) keeps the distal part, rooted at n"""
+    @classmethod
+    def apply(cls, x, p, inplace):
+        return x.prune_proximal_to(p['c'], inplace=inplace)
+
+
+@op('m_prune_twigs')
+class MPruneTwigs(PruneTwigs):
+    @staticmethod
+    def apply(x, p, inplace):
+        return x.prune_twigs(p['size'], recursive=p['recursive'], inplace=inplace)
+
+
+@op('m_prune_by_strahler')
+class MPruneStrahler(PruneStrahler):
+    @staticmethod
+    def apply(x, p, inplace):
+        return x.prune_by_strahler(to_prune=p['to_prune'], reroot_soma=False, force_strahler_update=True, inplace=inplace)
+
+
+@op('m_prune_at_depth')
+class MPruneDepth(PruneDepth):
+    @staticmethod
+    def apply(x, p, inplace):
+        return x.prune_at_depth(p['depth'], source=p['source'], inplace=inplace)
+
+
+@op('m_prune_by_longest_neurite')
+class MLongest(Longest):
+    @staticmethod
+    def apply(x, p, inplace):
+        return x.prune_by_longest_neurite(n=p['n'], reroot_soma=False, inverse=p['inverse'], inplace=inplace)
+
+
+@op('m_downsample')
+class MDownsample(Downsample):
+    @staticmethod
+    def apply(x, p, inplace):
+        return x.downsample(p['factor'], inplace=inplace)
+
+
+METHODS = ['m_reroot', 'm_prune_distal_to', 'm_prune_proximal_to', 'm_prune_twigs', 'm_prune_by_strahler', 'm_prune_at_depth',
+           'm_prune_by_longest_neurite', 'm_downsample']
+
+
 STRUCTURAL = ['reroot', 'reroot_seq', 'subset', 'cut_distal', 'cut_proximal', 'prune_twigs', 'prune_by_strahler',
               'prune_at_depth', 'longest_neurite', 'drop_fluff', 'downsample', 'remove_nodes', 'insert_nodes',
               'mul', 'add', 'copy', 'pickle', 'smooth', 'despike', 'heal', 'resample', 'merge_duplicate_nodes',
-              'rewire', 'break_fragments', 'stitch', 'combine']
+              'rewire', 'break_fragments', 'stitch', 'combine'] + METHODS
